@@ -24,7 +24,7 @@ func init() {
 
 func ruleResumeGuard(c *Ctx) {
 	const R = "R06-guard"
-	c.floor(R, 11)
+	c.floor(R, 13)
 	p := c.P
 	trun := p.Fn("lua", "threadRun")
 	deadF := p.Field("lua", "LState", "Dead")
@@ -102,6 +102,28 @@ func ruleResumeGuard(c *Ctx) {
 					okC = true
 				}
 			})
+			// …and only once nothing can fail any more: between the store that makes th the running thread and
+			// the switch no call can raise (handing the arguments over, setting the first frame up and padding
+			// can overflow the registry; a raise after the store leaves th 'running' for ever, F74)
+			var lateRaise ssa.Instruction
+			var via string
+			allInstrs(fn, func(in ssa.Instruction) {
+				if _, ok := isFieldStore(in, curF); !ok || !g.Dominates(in, cl) {
+					return
+				}
+				b, i := after(in)
+				g.walk(b, i, func(x ssa.Instruction) bool { return x == ssa.Instruction(cl) }, func(x ssa.Instruction) bool {
+					if may, v := p.siteMayRaise(x); may && lateRaise == nil {
+						lateRaise, via = x, v
+					}
+					return false
+				})
+			})
+			rpos := p.ipos(cl)
+			if lateRaise != nil {
+				rpos = p.ipos(lateRaise)
+			}
+			c.check(lateRaise == nil, R, fname(fn)+":becomes-current-after-the-last-raising-step", rpos, "no raising call lies between CurrentThread = th and the switch", fname(fn)+" makes th the current thread and then calls "+via+", which can raise (registry overflow while the arguments are handed over): the error unwinds to the resumer's pcall but G.CurrentThread and th.Parent stay set — coroutine.status(th) answers 'running' although nothing runs it")
 			c.check(okP && okC, R, fname(fn)+":records-resumer", p.ipos(cl), "th.Parent and G.CurrentThread are set before the switch", "the resumer is not recorded (Parent / CurrentThread) before control is transferred: yield cannot find its way back")
 		}
 	}
